@@ -75,7 +75,10 @@ class BaseFiles(Generic[Interface]):
         try:
             stat_result = os.stat(path)
             return stat_result, stat.S_ISREG(stat_result.st_mode)
-        except FileNotFoundError:
+        except (OSError, ValueError):
+            # Not only a missing file: "/file.txt/x" (NotADirectoryError), an
+            # over-long name (OSError) or an embedded NUL (ValueError) all
+            # mean that there is no such file to serve.
             return None, False
 
     def if_none_match(self, etag: str, if_none_match: str) -> bool:
